@@ -209,6 +209,8 @@ def civil_probes(instants, offs, tier, rng):
            (292277026596, 12, 4, 15, 30, 7), (292277026596, 12, 4, 15, 30, 8), (292277026596, 12, 5, 15, 30, 7),
            (292277026596, 12, 3, 15, 30, 8), (-292277022657, 1, 27, 8, 29, 52), (-292277022657, 1, 27, 8, 29, 51),
            (-292277022657, 1, 28, 8, 29, 52), (-292277022657, 1, 26, 8, 29, 52), (1970, 1, 1, 0, 0, 0)]
+    if tier == "quick" and len(out) > 900:
+        out = rng.sample(out, 900)
     for e in ext:
         if e not in seen:
             out.append(e)
@@ -298,9 +300,11 @@ def gen_c01(tier, rng):
 
 def gen_c02(tier, rng):
     zones = zones_for(tier, rng)
+    if tier == "quick":
+        zones = zones[:45] + zones[60:]
     cases = []
     for zid, data in zones:
-        inst, offs, rule = probe_instants(data, tier, rng, max_trans=30)
+        inst, offs, rule = probe_instants(data, tier, rng, max_trans=16)
         if rule:
             offs = sorted(set(offs + [rule[0], rule[1]]))
         for cs in civil_probes(sorted(set(inst)), offs, tier, rng):
@@ -320,9 +324,11 @@ def gen_c03(tier, rng):
 
 def gen_c06(tier, rng):
     zones = zones_for(tier, rng)
+    if tier == "quick":
+        zones = zones[:45] + zones[60:]
     cases = []
     for zid, data in zones:
-        inst, offs, rule = probe_instants(data, tier, rng, max_trans=30)
+        inst, offs, rule = probe_instants(data, tier, rng, max_trans=16)
         if rule:
             offs = sorted(set(offs + [rule[0], rule[1]]))
         for cs in sorted(civil_probes(sorted(set(inst)), offs, tier, rng)):
@@ -375,12 +381,14 @@ def fixed_name(off):
     return ("Fixed/UTC%s%02d:%02d:%02d" % ("-" if off < 0 else "+", a // 3600, a // 60 % 60, a % 60)).encode()
 
 
-def edge_instants():
+def edge_instants(tier="thorough"):
     out = []
+    hs = range(0, 49) if tier != "quick" else [0, 1, 2, 11, 12, 13, 23, 24, 25, 47, 48]
+    ss = range(0, 121) if tier != "quick" else [0, 1, 2, 3, 58, 59, 60, 61, 119, 120]
     for base, sg in ((I64_MIN, 1), (I64_MAX, -1)):
-        for h in range(0, 49):
+        for h in hs:
             out.append(base + sg * h * 3600)
-        for s in range(0, 121):
+        for s in ss:
             out.append(base + sg * s)
     for c in (BIG_BANG, -BIG_BANG, -(1 << 31), (1 << 31) - 1, 0):
         for d in (-2, -1, 0, 1, 2):
@@ -398,7 +406,7 @@ def gen_c10(tier, rng):
     for off in (86400, -86400, 86399, -86399, 3600, -3600, 1, -1, 43200, -43200, 45296):
         ids.append(named(fixed_name(off)))
     ids.append(named(b"UTC"))
-    inst = edge_instants()
+    inst = edge_instants(tier)
     cases = []
     for zid in ids:
         offs = [0, 86400, -86400, 3600, -3600, 50400, -43200, 1, -1]
